@@ -507,11 +507,30 @@ RULE_T = ("TLC explores spec/MC_Transport.tla exhaustively up to the stated dept
           "bound to the session's split keys, which C01 checks independently); every edge is followed by a PROBE round "
           "trip computed by the model from the post-state (I writes, R reads it, R writes, I reads it), so that the keys "
           "and counters both sides really hold after the edge - not only the counters the API reports - are compared "
-          "byte for byte whatever path led there; distinct = distinct (edge, name) pairs; ")
+          "byte for byte whatever path led there; two further shallow configurations (-lenA, -lenB) repeat the first one with "
+          "seed-derived payload lengths (block-aligned; very short, medium or long) instead of 70-odd bytes; "
+          "distinct = distinct (edge, name) pairs; ")
+
+
+PAY_ALIGNED = [15, 31, 47, 63, 127, 255, 511, 1023, 4095, 16383, 32767]      # + j = 1 gives the aligned length
+
+
+def len_legs(seed, configs):
+    """Two more shallow configurations per property with seed-derived payload lengths (PayBase): the fixed legs write
+    payloads of 70-odd bytes only, so a deviation confined to a length class (block-aligned, long, very short) would pass."""
+    rnd = random.Random(seed * 104729 + len(configs))
+    name, c = configs[0]
+    base = dict(c)
+    base.update(Depth=min(base.get("Depth", 3), 3), MaxSend=min(base.get("MaxSend", 1), 2), BigBudget=0)
+    base.pop("PayBase", None)
+    a = rnd.choice(PAY_ALIGNED)
+    b = rnd.choice([0, rnd.randrange(1, 64), rnd.randrange(256, 4096), rnd.randrange(4096, 65000)])
+    return [(name + "-lenA", dict(base, PayBase=a)), (name + "-lenB", dict(base, PayBase=b))]
 
 
 def tlegs(prop, seed, configs, per_scn=1):
     tl, rl = [], []
+    configs = list(configs) + len_legs(seed, configs)
     for name, c in configs:
         c = dict(c)
         backends = c.pop("backends", "default")
